@@ -108,10 +108,21 @@ def run(spec):
             out.count("pairs_stopped_by_a_budget_not_compared")  # (a demanding curvature threshold slows both runs down: neither is at the solution)
         if fam in CONVEX and exact.exc is None and not limited:
             fe, ff = exact.snap["fun"], tr.snap["fun"]
+            # a run that stops on pg <= gtol may leave a variable up to gtol short of the bound its gradient pushes it to (on a side
+            # narrower than gtol it may even rest on the opposite bound: thorough sweep, seed 1, a sliver of width 8.6e-7 with a
+            # multiplier of 187): each run's value is the solution's only up to sum |g_i| * min(gtol, distance to that bound)
+            def short_of_bound(snap):
+                xs, gs = np.asarray(snap["x"], dtype=float), np.asarray(snap["jac"], dtype=float)
+                dist = np.where(gs > 0, xs - P.lb, np.where(gs < 0, P.ub - xs, 0.0))
+                return float(np.sum(np.abs(gs) * np.minimum(base["gtol"], dist)))
+
+            slack = (short_of_bound(exact.snap) + short_of_bound(tr.snap)) / max(1.0, abs(fe))
             gap = abs(ff - fe) / max(1.0, abs(fe))
             out.count("value_comparisons")
             out.maxi("max_value_gap", gap)
-            if not (gap <= 1e-6):
+            if slack > 1e-7:
+                out.count("value_comparisons_with_a_run_stopped_short_of_a_bound")
+            if not (gap <= 1e-6 + 2.0 * slack):
                 out.violate("fd_solution_differs_from_exact", f"{name}: f with finite differences = {ff!r} ({tr.snap['message']}, {tr.snap['nit']} it), with the "
                             f"exact gradient = {fe!r} ({exact.snap['message']}, {exact.snap['nit']} it): relative gap {gap:.3e}", **tags)
                 break
